@@ -936,6 +936,8 @@ class Super:
                     return args[0]
             if np.startswith("std::cell::Cell::<T>::get"):
                 return ("load", args[0])
+            if not args and t["callee"].get("substs"):
+                return ("call", np, args, tuple(t["callee"]["substs"]))
             return ("call", np, args)
         if ci["kind"] == "crate" and ci["targets"]:
             tf = ci["targets"][0]
